@@ -453,11 +453,29 @@ def fam_classes(tier, seed):
         cat(SET(("j", "p")), C("4"))))))
     n_rand = 0 if tier == "quick" else 520
     rnd = random.Random(seed + 17)
-    for i in range(n_rand):
+    i = 0
+    while i < n_rand:
         e = rand_class(rnd, 3)
+        if not approx_class(e):
+            continue        # an empty class is outside the properties' precondition
         out.append(single("classes_rand_%d_%d" % (seed, i), "classes",
                           cat(e, C("!")) if rnd.random() < 0.5 else e))
+        i += 1
     return out
+
+
+ASCII_SETS = {
+    "ascii_lowercase": ((97, 122),), "ascii_alphabetic": ((65, 90), (97, 122)),
+    "ascii_hexdigit": ((48, 57), (65, 70), (97, 102)),
+}
+
+
+def approx_class(e):
+    """Set denoted by a class expression over sets, `_`, `|`, `#` and the three ASCII built-ins the
+    random generator uses (only to discard empty classes)."""
+    from . import ivl
+    from .refsem import class_set
+    return class_set(e, {}, ASCII_SETS)
 
 
 def rand_class(rnd, depth, lo=ord("a"), hi=ord("p")):
